@@ -143,6 +143,20 @@ def run(rep, br, proofs, rng, tier):
             for v in LENGTHS:
                 dcases.append(mk_case("l%d" % nl, "dec", hexs(splice_length(b, p, v)))); nl += 1
                 if v > 2**31: dcases.append(mk_case("l%d" % nl, "dec", hexs(splice_consistent(b, p, v)))); nl += 1
+    # builtin function objects naming every entry of BuiltinsMap (functions and the error values alike) and names
+    # it does not have, alone and inside an array, a map and a sync map
+    bn, _ = vlib.run_impl([mk_case("bn", "builtinnames")["line"]], timeout=120)
+    bnames = [vlib.unhex(x) for x in vlib.parse_sexp(bn["bn"])[1:]]
+    assert len(bnames) > 40
+    def wrap(inner, tag):
+        body = vi_bytes(1) + inner if tag == 9 else vi_bytes(1) + vi_bytes(1) + b"k" + inner
+        return bytes([tag]) + vi_bytes(len(body)) + body
+    for j, nm in enumerate(bnames + [b"", b"nosuch", b"Len", b"len\x00", b"typeerror", b"\xff"]):
+        sobj = bytes([7]) + vi_bytes(len(nm)) + nm
+        for tag in (14, 13):
+            o = bytes([tag]) + vi_bytes(len(sobj)) + sobj
+            for k, b in enumerate([o, wrap(o, 9), wrap(o, 10), wrap(wrap(o, 9), 9), bytes([11]) + wrap(o, 10)[1:], o[:-1], o + b"\x00"]):
+                dcases.append(mk_case("bf%d.%d.%d" % (j, tag, k), "dec", hexs(b)))
     impl_d, _ = vlib.run_impl([c["line"] for c in dcases], timeout=2400)
     model_d, _ = vlib.run_model([c["line"] for c in dcases], timeout=2400)
     dis, inconclusive, classes = [], 0, {}
@@ -193,7 +207,7 @@ def run(rep, br, proofs, rng, tier):
                            "case": c["line"][:3000], "impl": str(c["impl"])[:500], "model": str(c["model"])[:500]}, found=False)
     rep.coverage.update({
         "evaluations": total + len(dcases), "distinct_nontrivial": err + sum(1 for c in dcases if c["impl"] == "(err)"),
-        "rule": "all truncations and single-byte corruptions (8 replacement values per position) of the version 2 and version 1 encodings of generated programs, decoded under recover with allocation measured; every length prefix of object encodings (nested ones included) replaced by boundary lengths (around MaxInt64, 2^62, 2^32, 2^31, 65536, 0, negative), also with the lengths of the enclosing objects adjusted so that only the innermost length lies; plus seeded single/double byte corruptions, truncations and arbitrary byte strings decoded as objects by implementation and model; non-trivial = the decoder rejected the input (the corruption reached a tag, length or count field)",
+        "rule": "all truncations and single-byte corruptions (8 replacement values per position) of the version 2 and version 1 encodings of generated programs, decoded under recover with allocation measured; every length prefix of object encodings (nested ones included) replaced by boundary lengths (around MaxInt64, 2^62, 2^32, 2^31, 65536, 0, negative), also with the lengths of the enclosing objects adjusted so that only the innermost length lies; builtin function and function objects naming every entry of BuiltinsMap and unknown names, alone and inside containers; plus seeded single/double byte corruptions, truncations and arbitrary byte strings decoded as objects by implementation and model; non-trivial = the decoder rejected the input (the corruption reached a tag, length or count field)",
         "samples": [pcases[0]["line"][:300], dcases[0]["line"], dcases[-1]["line"]],
         "bytecode_mutations": total, "bytecode_mutations_ok": ok, "bytecode_mutations_err": err,
         "v1_instruction_mutations": v1total, "v1_model_compared": len(v1model), "v1_model_disagreements": len(v1dis),
